@@ -57,6 +57,10 @@ def gen_run(rng, tier):
     scn = gen.gen_run_scenario(rng, tier, nfiles=nfiles, lines=rng.choice([3, 20, 200]),
                                constraint=0.0, empty=0.1)
     scn['max_parallel_tasks'] = rng.choice([0, 1, 2, 3, 4, 8, 16])
+    if rng.random() < 0.3:
+        # some registrations opt out of the (absent) file-level constraint: whatever mix of
+        # flags a file's searches have, it stays ONE file with ONE task
+        scn['regs'] = [r + [rng.random() < 0.5] for r in scn['regs']]
     if nfiles >= 2 and rng.random() < 0.25:
         # an environment fault in the PARENT after the jobs were handed out: `ps` (used when
         # the pool is torn down) is not on PATH / the connection to the manager breaks while
